@@ -15,13 +15,18 @@ The driver
     TREE model (Model/C07Tree.lean: nodes in the task's walk order, which the harness reports and the driver
     compares with its own) exactly like chains; every chain case is ALSO replayed on the tree model with the chain
     topology and must give the chain model's prediction;
-  * topologies with a union / join node (`…;=union,tail`: several PARENTS) have no model: spec oracle only.
+  * topologies with a union / join node (`…;=union,tail`: several PARENTS) have no model: spec oracle only;
+  * `minflux:<B>.<K>.<F>` = influxDBOut().buffer(B) WITHOUT .database() in a task with K DBRPs, the fake client rejecting
+    the databases of the bit mask F: in the stop-protocol models it is an influxDBOut node like any other; per database
+    the property is evaluated on what the client was handed (Spec: `unservedDestinations`), and the sizes of the Write
+    calls per database are compared with the write-buffer model (Model/C07Wb.lean).
 -/
 import Kap.Basic
 import Kap.Gen.C07
 import Kap.Model.C07
 import Kap.Model.C07Tree
 import Kap.Model.C07Buf
+import Kap.Model.C07Wb
 import Kap.Spec.C07
 open Kap Kap.C07
 
@@ -46,6 +51,13 @@ def parseNode (t : String) : Option NodeTok :=
   | ["barrier", _] | ["pbarrier", _] => some ⟨.barrier true, .plain⟩
   | ["barriernd", _] => some ⟨.barrier false, .plain⟩
   | ["influx", b] => b.toNat?.map (fun b => ⟨.influx b, .influxOutput⟩)
+  | ["minflux", a] => match a.splitOn "." with
+    | [b, k, f] => do
+      let b ← b.toNat?
+      let k ← k.toNat?
+      let _ ← f.toNat?
+      if k = 0 then none else pure ⟨.influx b, .influxOutput⟩
+    | _ => none
   | ["fail", k] => k.toNat?.map (fun k => ⟨.fail k, .failing⟩)
   | _ => none
 
@@ -67,11 +79,48 @@ structure OutObs where
   total : Nat
   distinct : Nat
   missing : Nat
+  calls : String := "-"
 
 def parseOut (t : String) : Option OutObs :=
   match t.splitOn ":" with
-  | [i, tot, d, m, _] => do pure ⟨← i.toNat?, ← tot.toNat?, ← d.toNat?, ← m.toNat?⟩
+  | [i, tot, d, m, c] => do pure ⟨← i.toNat?, ← tot.toNat?, ← d.toNat?, ← m.toNat?, c⟩
   | _ => none
+
+/-! ### Outputs with several destinations (`minflux:<B>.<K>.<F>`) -/
+
+structure Keyed where
+  idx : Nat      -- declaration index of the node
+  size : Nat     -- .buffer(B)
+  nkeys : Nat    -- databases of the task
+  mask : Nat     -- bit mask of the rejecting databases
+
+/-- the `minflux` nodes of a chain / fork topology with their declaration indexes (all node tokens in textual order) -/
+def keyedOf (chainT : String) : List Keyed :=
+  let toks := (chainT.splitOn ";").flatMap (·.splitOn ",")
+  toks.zipIdx.filterMap (fun p => match p.1.splitOn ":" with
+    | ["minflux", a] => match (a.splitOn ".").map String.toNat? with
+      | [some b, some k, some f] => some ⟨p.2 + 1, b, k, f⟩
+      | _ => none
+    | _ => none)
+
+def Keyed.rejects (kd : Keyed) : List Nat := (List.range kd.nkeys).filter (fun k => (kd.mask >>> k) % 2 == 1)
+def Keyed.cfg (kd : Keyed) : Wb.Cfg := { size := kd.size, nkeys := kd.nkeys, rejects := kd.rejects }
+
+/-- `<k><h|r>@<size>x<count>.<size>x<count>…` joined by `/`: per database (in order 0 …) whether the client rejects it
+and the sizes of the Write calls it was handed -/
+def parseKeyedCalls (t : String) : Option (List (Bool × List Nat)) :=
+  ((t.splitOn "/").zipIdx).mapM (fun p => match p.1.splitOn "@" with
+    | [hd, runs] => do
+      let rej ← (if hd == s!"{p.2}r" then some true else if hd == s!"{p.2}h" then some false else none)
+      if runs == "-" then pure (rej, []) else
+      let rs ← (runs.splitOn ".").mapM (fun r => match r.splitOn "x" with
+        | [a, c] => do pure (List.replicate (← c.toNat?) (← a.toNat?))
+        | _ => none)
+      pure (rej, rs.flatten)
+    | _ => none)
+
+/-- accepted points that belong to destination `k` (point i of `acc` was written to database i mod K) -/
+def wantOf (acc K k : Nat) : Nat := ((List.range acc).filter (fun i => i % K == k)).length
 
 def parseOuts (t : String) : Option (List OutObs) :=
   if t == "-" then some [] else (t.splitOn ",").mapM parseOut
@@ -299,6 +348,7 @@ def judge (_id : String) (lines : Array String) : Verdict := Id.run do
   let some cls := parseClass clsT | return .badop l
   let some n := parseN nT | return .badop l
   let kinds := topo.kinds
+  let keyed := keyedOf chainT
   let input : Input := { chain := topo.shapes, stop := stop, cls := cls, n := n }
   let cfg : Cfg := { cap := edgeCap, viaClose := stop == .close, hookLock := false, alertLeak := false }
   -- model predictions for this class: forks on the tree model, chains on the chain model
@@ -394,7 +444,22 @@ def judge (_id : String) (lines : Array String) : Verdict := Id.run do
           | _, _, _ => return false
         if outs.length != pS.deliv.length then return false
       return true
-    let detail := s!"observed acc={acc} stop={stopres} census={census} outs={outsT} nodeerr={nodeErrT}; model stop-first returned={pS.returned} leaked={pS.leaked} deliv={pS.deliv} lostIngest={pS.lostIngest} lost={pS.lostAt}; pipeline-first returned={pP.returned} leaked={pP.leaked} deliv={pP.deliv} lostIngest={pP.lostIngest} lost={pP.lostAt}" ++ (if hasFail then s!"; failing-first deliv={pF.deliv} lost={pF.lostAt}" else "") ++ (if barrierCtl then s!"; control messages of the barrier node (edges {ctlSlack} slots smaller) deliv={pB.deliv} lostIngest={pB.lostIngest}" else "")
+    -- outputs with several destinations: per database, the accepted points it was handed (Write calls attempted there)
+    let mut keyedNote := ""
+    let mut keyedUnserved := false
+    let mut keyedObs : List (Keyed × List (Bool × List Nat)) := []
+    for kd in keyed do
+      let some o := outs.find? (·.idx == kd.idx) | return .badop l
+      let some pk := parseKeyedCalls o.calls | return .badop l
+      if pk.length != kd.nkeys then return .badop l
+      keyedObs := keyedObs ++ [(kd, pk)]
+      let want := (List.range kd.nkeys).map (wantOf acc kd.nkeys)
+      let handed := pk.map (fun p => p.2.foldl (· + ·) 0)
+      let bad := unservedDestinations want handed
+      if !bad.isEmpty then
+        keyedUnserved := true
+        keyedNote := keyedNote ++ s!"; output {kd.idx}: destinations {bad} of {kd.nkeys} (rejecting: {kd.rejects}) were NOT handed all their accepted points when the stop returned (handed {handed} of {want})"
+    let detail := s!"observed acc={acc} stop={stopres} census={census} outs={outsT} nodeerr={nodeErrT}{keyedNote}; model stop-first returned={pS.returned} leaked={pS.leaked} deliv={pS.deliv} lostIngest={pS.lostIngest} lost={pS.lostAt}; pipeline-first returned={pP.returned} leaked={pP.leaked} deliv={pP.deliv} lostIngest={pP.lostIngest} lost={pP.lostAt}" ++ (if hasFail then s!"; failing-first deliv={pF.deliv} lost={pF.lostAt}" else "") ++ (if barrierCtl then s!"; control messages of the barrier node (edges {ctlSlack} slots smaller) deliv={pB.deliv} lostIngest={pB.lostIngest}" else "")
     match failingClause outcome with
     | some clause =>
       if !inModel then return .specfail clause detail
@@ -409,9 +474,35 @@ def judge (_id : String) (lines : Array String) : Verdict := Id.run do
         return .specfail clause detail
       return .specfail clause detail
     | none =>
+      if keyedUnserved && returned && !nodeErr then return .specfail "accepted-points-delivered" detail
       if !inModel then return .mismatch detail
-      let nt := (cls != Class.drained && n > 0) || cls == Class.early || anyFailed
-      return .ok nt br
+      -- the write-buffer model (Model/C07Wb.lean): per database the sizes of the Write calls, in order
+      let mut wbNt := false
+      for (kd, pk) in keyedObs do
+        -- (a pipeline in which a node failed may have handed the output a part of the accepted points only: the
+        -- arrivals the model is replayed on are not known then)
+        let complete := outs.any (fun o => o.idx == kd.idx && o.total == acc && o.missing == 0)
+        if !complete then
+          br := br ++ ["wb-multikey", "wb-partial-input"]
+          continue
+        let sched := Wb.canon acc kd.nkeys []
+        let before := Wb.run kd.cfg Wb.init sched.dropLast
+        let fin := Wb.run kd.cfg Wb.init sched
+        let mine := (List.range kd.nkeys).map (fun k => (kd.rejects.contains k, Wb.callSizes fin k))
+        if mine != pk then
+          return .mismatch s!"the write-buffer model (Model/C07Wb.lean) makes the Write calls {mine} per database (rejecting, sizes), the client of output {kd.idx} saw {pk}: {detail}"
+        let rem := (List.range kd.nkeys).filter (fun k => !(before.buf k).isEmpty)
+        let rejRem := rem.filter (fun k => kd.rejects.contains k)
+        br := br ++ ["wb-multikey", if kd.rejects.isEmpty then "wb-all-healthy" else "wb-some-reject"]
+        br := br ++ [if rem.isEmpty then "wb-final-flush-empty" else if rem.length == 1 then "wb-final-flush-1" else "wb-final-flush-several"]
+        if !rejRem.isEmpty && rejRem.length < rem.length then
+          br := br ++ ["wb-reject-in-final-flush"]
+          wbNt := true
+        if !rejRem.isEmpty && rejRem.length == rem.length then br := br ++ ["wb-final-flush-all-rejected"]
+        if kd.rejects.any (fun k => (Wb.callSizes before k).length > 0) then br := br ++ ["wb-reject-at-threshold"]
+        if fin.errors > 0 && fin.written > 0 then br := br ++ ["wb-errors-and-writes"]
+      let nt := (cls != Class.drained && n > 0) || cls == Class.early || anyFailed || wbNt
+      return .ok nt br.eraseDups
   | _ => return .badop l
 
 end Kap.C07.Drv
